@@ -118,6 +118,7 @@ def subsets_of(rng, names, absent, limit):
 
 def gen_cases(seed, n, limit=32, prefix="g"):
     rng = gv.SplitMix(seed * 104729 + 11)
+    rng2 = gv.SplitMix(seed * 7919 + 1111)
     out = []
     for i in range(n):
         shape, names, E = gen_graph(rng, 8)
@@ -152,9 +153,14 @@ def gen_cases(seed, n, limit=32, prefix="g"):
         lim = limit if spec[1] == 0 else 4
         if weighted:
             lim = min(lim, 12)
-        out.append({"id": "%s%d" % (prefix, i), "spec": list(spec), "shape": shape,
-                    "nodes": [[x, None] for x in decl], "edges": edges, "weighted": weighted,
-                    "subs": subsets_of(rng, names, absent, lim)})
+        case = {"id": "%s%d" % (prefix, i), "spec": list(spec), "shape": shape,
+                "nodes": [[x, None] for x in decl], "edges": edges, "weighted": weighted,
+                "subs": subsets_of(rng, names, absent, lim)}
+        if weighted and rng2.below(100) < 35:
+            # dyadic weight scale applied inside the harness (see centgen.py): the weighted coefficients are
+            # invariant under it, so the model and the oracle run on the unscaled cubes
+            case["wscale"] = rng2.pick([-60, -3, -3, 40])
+        out.append(case)
     return out
 
 
@@ -303,7 +309,8 @@ class ClusterProp(props.BaseProp):
         return gen_cases(seed, n, self.sub_limit)
 
     def to_harness(self, c):
-        lines = ["case %s" % c["id"], "spec %d %d %d %d %d %d" % tuple(c["spec"]), graph_lines(c),
+        lines = ["case %s" % c["id"]] + (["wscale %d" % c["wscale"]] if c.get("wscale") else []) + [
+                 "spec %d %d %d %d %d %d" % tuple(c["spec"]), graph_lines(c),
                  "weighted %d" % c.get("weighted", 0)]
         lines += ["sub %d %s" % (len(s), " ".join(str(x) for x in s)) for s in c["subs"]]
         lines.append("end")
@@ -314,7 +321,7 @@ class ClusterProp(props.BaseProp):
                                     "; ".join(hist.zl(s) for s in c["subs"]))
 
     def case_json(self, c):
-        return {k: c[k] for k in ("id", "spec", "nodes", "edges", "weighted", "subs")}
+        return dict({k: c[k] for k in ("id", "spec", "nodes", "edges", "weighted", "subs")}, wscale=c.get("wscale", 0))
 
     def case_from_json(self, j):
         j = dict(j)
@@ -577,3 +584,4 @@ C11.manifest = {
                  "the model) + differential correspondence vs vm_compute model + brute-force definition oracle on the "
                  "implementation's output",
 }
+C11.rule += ' WEIGHT VARIANTS (separate PRNG stream): 35% of the weighted cases are run with a dyadic weight scale applied inside the harness (all weights x 2^k on input, weight-valued observations / 2^k on output, k in {-60, -3, 40}; exact in binary64, so the observations must equal those of the unscaled integers the model and the oracle use): path-length differences far below f64::EPSILON, all weights below 1, large magnitudes.'
